@@ -40,6 +40,28 @@ def tla_set(items):
     return "{" + ", ".join('"%s"' % i for i in items) + "}"
 
 
+def reap_stale_work(max_age_s=7200):
+    """Failed runs keep their work directory for inspection; remove those whose process is gone and that are old."""
+    now = time.time()
+    try:
+        names = os.listdir(WORKROOT)
+    except OSError:
+        return
+    for n in names:
+        m = re.match(r"^(?:C\d\d_(?:quick|thorough|replay)|harness_src)_(\d+)$", n)
+        if not m:
+            continue
+        d = os.path.join(WORKROOT, n)
+        try:
+            if now - os.path.getmtime(d) < max_age_s:
+                continue
+            os.kill(int(m.group(1)), 0)
+        except ProcessLookupError:
+            shutil.rmtree(d, ignore_errors=True)
+        except OSError:
+            pass
+
+
 class Run:
     def __init__(self, prop, tier, seed, replay=None):
         self.prop, self.tier, self.seed, self.replay = prop, tier, seed, replay
@@ -47,6 +69,7 @@ class Run:
         self.work = os.path.join(WORKROOT, "%s_%s_%d" % (prop, "replay" if replay else tier, os.getpid()))
         shutil.rmtree(self.work, ignore_errors=True)
         os.makedirs(self.work)
+        reap_stale_work()
         self.states = 0          # distinct states over the model-checking runs of this check
         self.transitions = 0     # states generated (= transitions explored)
         self.traces = 0          # real executions validated against / judged by the specification
@@ -81,7 +104,7 @@ class Run:
         cfgp = os.path.join(d, module + ".cfg")
         with open(cfgp, "w") as f:
             f.write(cfg)
-        cmd = ["tlc", "-workers", str(workers), "-metadir", os.path.join(d, "meta_" + module), "-config", cfgp]
+        cmd = ["tlc", "-checkpoint", "0", "-workers", str(workers), "-metadir", os.path.join(d, "meta_" + module), "-config", cfgp]
         if seed is not None:
             cmd += ["-seed", str(seed)]
         if simulate:
@@ -181,7 +204,7 @@ class Run:
                 if f.endswith(".tla"):
                     shutil.copy(os.path.join(SPEC, f), pd)
             open(os.path.join(pd, module + ".cfg"), "w").write(cfg)
-            cmd = ["timeout", "-s", "KILL", str(timeout), "tlc", "-workers", "1", "-metadir", os.path.join(pd, "meta"),
+            cmd = ["timeout", "-s", "KILL", str(timeout), "tlc", "-checkpoint", "0", "-workers", "1", "-metadir", os.path.join(pd, "meta"),
                    "-config", os.path.join(pd, module + ".cfg"), module + ".tla"]
             procs.append(subprocess.Popen(cmd, cwd=pd, env=env, stdout=subprocess.PIPE, stderr=subprocess.STDOUT, text=True))
         tot, vfiles, gen, dist = {}, [], 0, 0
@@ -285,9 +308,33 @@ def first_lines(path, k):
     return out
 
 
+def history_replay(prop, tier, seed, key):
+    """Second line of confirmation for failures that depend on the calls made before them (state carried
+    between calls): run the whole check again in a fresh process and see whether the same failure recurs."""
+    out = os.path.join(WORKROOT, "history_%d.json" % os.getpid())
+    env = dict(os.environ, VERIF_HISTORY_KEYS=out, VERIF_NO_EVIDENCE="1", VERIF_SEED=str(seed))
+    subprocess.run([os.path.join(VERIF, "bin", "check"), prop, tier], env=env, stdout=subprocess.DEVNULL, stderr=subprocess.DEVNULL)
+    try:
+        keys = json.load(open(out))
+    except (OSError, ValueError):
+        return False
+    finally:
+        if os.path.exists(out):
+            os.remove(out)
+    return list(key) in keys
+
+
+REPLAYERS["history"] = lambda run, rp: history_replay(run.prop, rp["tier"], rp["seed"], rp["key"])
+
+
 def finish(run, level_text=""):
     """Classify, confirm, write evidence, print lines, return exit code."""
     known = load_known()
+    if os.environ.get("VERIF_HISTORY_KEYS"):   # the second run of a history replay: report the failures, decide nothing
+        keys = [[v.get("clause"), str(v.get("q"))[:200]] for v in run.failures]
+        json.dump(keys, open(os.environ["VERIF_HISTORY_KEYS"], "w"))
+        shutil.rmtree(run.work, ignore_errors=True)
+        return 0
     code = 0
     lines = []
     # known findings hit in this run
@@ -311,7 +358,11 @@ def finish(run, level_text=""):
             rp = v.get("_replay")
             if rp and rp.get("pipeline") in REPLAYERS:
                 if not REPLAYERS[rp["pipeline"]](run, rp):
-                    raise Broken("failure not reproduced by single-case replay: %s" % json.dumps(key)[:300])
+                    # not a function of this one input: does it recur when the same history of calls is made again?
+                    if run.replay or not history_replay(run.prop, run.tier, run.seed, key):
+                        raise Broken("failure not reproduced by single-case replay: %s" % json.dumps(key)[:300])
+                    rp = {"pipeline": "history", "tier": run.tier, "seed": run.seed, "key": list(key),
+                          "note": "occurs only after the calls the check makes before it (state carried between calls)"}
             path = os.path.join(WORKROOT, "replays", "%s_%s.json" % (run.prop, hashlib.sha1(json.dumps(key).encode()).hexdigest()[:12]))
             json.dump({"property": run.prop, "failure": {k: x for k, x in v.items() if not k.startswith("_")}, "replay": rp}, open(path, "w"), indent=1)
             lines.append("VIOLATION property=%s replay=%s" % (run.prop, path))
